@@ -189,6 +189,18 @@ func (u *Unit) mergeStates(a, b *State) *State {
 			return nil
 		}
 	}
+	// a local promoted to the heap on one side only is promoted on the other
+	// side too (same reference constant), so that both keep it in the heap
+	for c := range a.promo {
+		if !b.promo[c] {
+			u.promoteCell(b, c)
+		}
+	}
+	for c := range b.promo {
+		if !a.promo[c] {
+			u.promoteCell(a, c)
+		}
+	}
 	// common prefix of the path conditions
 	n := 0
 	for n < len(a.pc) && n < len(b.pc) && a.pc[n].S == b.pc[n].S {
@@ -306,6 +318,13 @@ func (u *Unit) mergeStates(a, b *State) *State {
 	for k, vb := range b.cnt {
 		if _, ok := a.cnt[k]; !ok {
 			m.cnt[k] = u.bind(m, Ite(c, zero(k, vb), vb), "cnt")
+		}
+	}
+	// materialised literals: keep those both sides agree on
+	m.litCache = map[*SliceLit]T{}
+	for k, va := range a.litCache {
+		if vb, ok := b.litCache[k]; ok && vb.S == va.S {
+			m.litCache[k] = va
 		}
 	}
 	// ctx oracle
